@@ -566,6 +566,11 @@ def check(prop, tier, seed, keep=False, only=None):
                 continue
             replayed += 1
             ok, rpath, detail = playback(scratch, h, d["fq"], d["features"], d["idx"], prop)
+            if not ok and rpath is None and h.probe:
+                # Kani could not print a concrete test (its trace processing can exceed the memory cap on large
+                # harnesses): execute the harness natively on its probe input instead
+                ok, rpath, detail2 = probe_native(scratch, h, d["fq"], d["features"], prop)
+                detail = detail + "; native probe: " + detail2
             d["replay"] = rpath
             d["replay_detail"] = detail
             if ok:
